@@ -38,54 +38,6 @@ theorem storeOK_of_all (n : Node) (h : ∀ e ∈ n.payloads, e.2.sha = e.1) : St
     rw [this]
     simpa using hk
 
-theorem getTx_mem {d : List Tx} {r : Ref} {t : Tx} (h : getTx d r = some t) : t ∈ d :=
-  List.mem_of_find?_eq_some h
-
-theorem getTx_ref {d : List Tx} {r : Ref} {t : Tx} (h : getTx d r = some t) : t.ref = r := by
-  have := List.find?_some h
-  simpa using this
-
-theorem findBetween_mem {d : List Tx} {a b : Nat} {t : Tx} (h : t ∈ findBetween d a b) : t ∈ d := by
-  unfold findBetween at h
-  have := (sortBy_perm txLt _).mem_iff.mp h
-  exact (List.mem_filter.mp this).1
-
-/-- every element of a collected list with a payload is a public transaction of the input, carrying exactly
-    what the store holds under its payload hash; private transactions carry nothing -/
-theorem collect_elems (n : Node) : ∀ (l : List Tx) (r : List NetTx), collect n l = some r →
-    ∀ e ∈ r, ∃ t ∈ l, e.tx = some t ∧
-      ((t.pal = [] ∧ e.payload = readPayload n t.payloadHash ∧ e.payload.isSome) ∨ (t.pal ≠ [] ∧ e.payload = none)) := by
-  intro l
-  induction l with
-  | nil => intro r h e he; simp [collect] at h; subst h; cases he
-  | cons t ts ih =>
-    intro r h e he
-    unfold collect at h
-    split at h
-    · rename_i hp
-      split at h
-      · cases h
-      · rename_i p hrp
-        cases hc : collect n ts with
-        | none => simp [hc] at h
-        | some r' =>
-          simp [hc] at h
-          subst h
-          rcases List.mem_cons.mp he with rfl | he'
-          · exact ⟨t, List.mem_cons_self, rfl, Or.inl ⟨by simpa using hp, by simp [hrp], by simp⟩⟩
-          · obtain ⟨t', ht', h2⟩ := ih r' hc e he'
-            exact ⟨t', List.mem_cons_of_mem _ ht', h2⟩
-    · rename_i hp
-      cases hc : collect n ts with
-      | none => simp [hc] at h
-      | some r' =>
-        simp [hc] at h
-        subst h
-        rcases List.mem_cons.mp he with rfl | he'
-        · exact ⟨t, List.mem_cons_self, rfl, Or.inr ⟨by simpa using hp, rfl⟩⟩
-        · obtain ⟨t', ht', h2⟩ := ih r' hc e he'
-          exact ⟨t', List.mem_cons_of_mem _ ht', h2⟩
-
 /-- a TransactionList built from the node's own transactions never carries private payload bytes -/
 theorem list_reply_clean (cfg : Cfg) (n : Node) (hs : StoreOK n) (hsep : PrivSeparate n) (l : List Tx) (hl : ∀ t ∈ l, t ∈ n.dag)
     (r : List NetTx) (hc : collect n l = some r) (peer : Nat) (cid : Cid) (o : Nat × Msg)
@@ -101,5 +53,109 @@ theorem list_reply_clean (cfg : Cfg) (n : Node) (hs : StoreOK n) (hsep : PrivSep
     have hsha : p.sha = t.payloadHash := hs _ _ hread.symm
     exact hsep t' ht' t (hl t htl) hpal' hpal (by rw [hhash', hsha])
   · rw [hnone] at hpe; cases hpe
+
+
+/-! ### per-handler: what is sent carries no payload bytes -/
+
+theorem request_no_bytes {m : Msg} (h : isRequest m = true) : payloadBytes m = [] := by
+  cases m <;> simp [isRequest] at h <;> simp [payloadBytes]
+
+theorem gossip_clean (cfg : Cfg) (n : Node) (peer : Peer) (x : Ref) (lc : Nat) (refs : List Ref) (o : Nat × Msg)
+    (h : o ∈ (handleGossip cfg n peer x lc refs).out) : payloadBytes o.2 = [] := request_no_bytes (gossip_req cfg n peer x lc refs o h)
+theorem state_clean (cfg : Cfg) (n : Node) (peer : Peer) (cid : Cid) (x : Ref) (lc : Nat) (o : Nat × Msg)
+    (h : o ∈ (handleState cfg n peer cid x lc).out) : payloadBytes o.2 = [] := request_no_bytes (state_req cfg n peer cid x lc o h)
+theorem set_clean (cfg : Cfg) (env : Env) (n : Node) (peer : Peer) (cid : Cid) (a b : Nat) (i : IbltV) (o : Nat × Msg)
+    (h : o ∈ (handleTransactionSet cfg env n peer cid a b i).out) : payloadBytes o.2 = [] := request_no_bytes (set_req cfg env n peer cid a b i o h)
+theorem txlist_clean (cfg : Cfg) (env : Env) (n : Node) (peer : Peer) (cid : Cid) (a b : Nat) (txs : List NetTx) (o : Nat × Msg)
+    (h : o ∈ (handleTransactionList cfg env n peer cid a b txs).out) : payloadBytes o.2 = [] := request_no_bytes (txlist_req cfg env n peer cid a b txs o h)
+theorem pq_no_bytes {o : Nat × Msg} (h : ∃ r, o.2 = .payloadQuery r) : payloadBytes o.2 = [] := request_no_bytes (pq_req h)
+
+/-- what `handleTransactionPayloadQuery` may answer with data -/
+theorem payloadQuery_release (env : Env) (n : Node) (peer : Peer) (ref : Ref) (o : Nat × Msg)
+    (h : o ∈ (handleTransactionPayloadQuery env n peer ref).out) :
+    o = (peer.key, .payload ref none) ∨
+    ∃ tx p, getTx n.dag ref = some tx ∧ readPayload n tx.payloadHash = some p ∧ o = (peer.key, .payload ref (some p)) ∧
+      (tx.pal ≠ [] → peer.authenticated = true ∧ ∃ dids, decryptPAL env n tx.pal = .pal dids ∧ peer.did ∈ dids) := by
+  unfold handleTransactionPayloadQuery at h
+  split at h
+  · simp only [emptyPayload, List.mem_singleton] at h; exact Or.inl h
+  · rename_i tx htx
+    simp only at h
+    have hrel : ∀ (hyp : tx.pal ≠ [] → peer.authenticated = true ∧ ∃ dids, decryptPAL env n tx.pal = .pal dids ∧ peer.did ∈ dids),
+        o ∈ (match readPayload n tx.payloadHash with
+              | none => ({ node := n, ret := "err:payload-not-found" } : HR)
+              | some p => { node := n, out := [(peer.key, .payload ref (some p))] }).out →
+        ∃ tx p, getTx n.dag ref = some tx ∧ readPayload n tx.payloadHash = some p ∧ o = (peer.key, .payload ref (some p)) ∧
+          (tx.pal ≠ [] → peer.authenticated = true ∧ ∃ dids, decryptPAL env n tx.pal = .pal dids ∧ peer.did ∈ dids) := by
+      intro hyp ho
+      split at ho
+      · cases ho
+      · rename_i p hp
+        simp only [List.mem_singleton] at ho
+        exact ⟨tx, p, htx, hp, ho, hyp⟩
+    split at h
+    · rename_i hpal
+      split at h
+      · simp only [emptyPayload, List.mem_singleton] at h; exact Or.inl h
+      · rename_i hauth
+        split at h
+        · simp only [emptyPayload, List.mem_singleton] at h; exact Or.inl h
+        · simp only [emptyPayload, List.mem_singleton] at h; exact Or.inl h
+        · rename_i dids hdec
+          split at h
+          · simp only [emptyPayload, List.mem_singleton] at h; exact Or.inl h
+          · rename_i hmem
+            refine Or.inr (hrel (fun _ => ⟨by simpa using hauth, dids, hdec, ?_⟩) h)
+            simpa using hmem
+    · rename_i hpal
+      refine Or.inr (hrel (fun hne => absurd ?_ hne) h)
+      simpa using hpal
+
+
+theorem payload_out_nil (n : Node) (ref : Ref) (data : Option Payload) : (handleTransactionPayload n ref data).out = [] := by
+  unfold handleTransactionPayload
+  split
+  · rfl
+  · split
+    · rfl
+    · split
+      · rfl
+      · split
+        · rfl
+        · split
+          · rfl
+          · simp only
+            split <;> rfl
+
+
+/-! ### honest PAL decryption -/
+
+theorem tryCiphers_honest (env : Env) (keyOf : String → String) (cipherFor : String → Nat) (pal : List String)
+    (hh : HonestPal env keyOf cipherFor pal) (hinj : ∀ a b, keyOf a = keyOf b → a = b) (d₀ : String) :
+    ∀ (suffix : List String), (∀ d ∈ suffix, d ∈ pal) →
+      tryCiphers env [⟨keyOf d₀, true⟩] (suffix.map cipherFor) =
+        if d₀ ∈ suffix then some (.ok (pal.map some)) else none := by
+  intro suffix
+  induction suffix with
+  | nil => intro _; simp [tryCiphers]
+  | cons d ds ih =>
+    intro hsub
+    have hd := hh d (hsub d List.mem_cons_self) (keyOf d₀)
+    have ih' := ih (fun x hx => hsub x (List.mem_cons_of_mem _ hx))
+    simp only [List.map_cons, tryCiphers, tryKeys, if_true]
+    rw [hd]
+    by_cases hk : keyOf d₀ = keyOf d
+    · have : d₀ = d := hinj _ _ hk
+      subst this
+      simp
+    · have hne : d₀ ≠ d := fun h => hk (by rw [h])
+      simp only [hk, if_false, ih']
+      simp [hne]
+
+theorem parseDids_some (l : List String) : parseDids (l.map some) = some l := by
+  induction l with
+  | nil => rfl
+  | cons x xs ih => simp [parseDids, ih]
+
 
 end Nuts.C15.L
